@@ -24,7 +24,15 @@ RULE = ("seeded random circuits (built-in / custom factory gates under controlle
         "Symbol('_x')) are planted as decoys into ~30% of the cases of every kind (only key of that name in the map / both with "
         "different values / bare look-alike parameters next to compound expressions of the real symbol / one twin per step) and "
         "in 8 hand-shaped families (gates, wrapped gates, custom gates with look-alike formal parameters, MultiPhaseOperation, "
-        "circuits, hist, mixed); symbols are identified by an id ('theta', 'theta__real', 't__d1'), never by printed name")
+        "circuits, hist, mixed); symbols are identified by an id ('theta', 'theta__real', 't__d1'), never by printed name.  "
+        "HARDENING families: value twins on one circuit / gate / map object (-1 -> -2, 0 -> 2**61-1, v -> v + 1e-9, values of two "
+        "keys swapped, entries reordered, 1 / 1.0 / Integer(1), look-alike key, all values equal; one gate object on two "
+        "qubits), every nesting of a power / exponential wrapper under and above controls and daggers at gate, operation and "
+        "circuit level (18 nestings), special shapes (MS(t,t), uniform phases, parameters that print alike, symbols named E / I / "
+        "S / pi / lambda, 66-80 operations with 13-14 symbols and qubit indices up to 70, falsy values), `chained` maps whose "
+        "values mention their own keys (oracle only: one reading – simultaneous or sequential in some order – must hold for "
+        "bare and compound parameters alike); a bare-symbol parameter must become EXACTLY the value bound to it; the map object "
+        "the caller passed is bound once more to a witness circuit")
 TRUSTED = [
     "sympy: a Symbol is identified by name AND assumptions, a Dummy by its index; xreplace / subs match the exact objects (the "
     "oracle's expected values are computed with xreplace on the exact key objects, never by name)",
@@ -44,7 +52,9 @@ TRUSTED = [
     "rational-only cases are compared exactly",
 ]
 ASSUMPTIONS = [
-    "symbol maps whose values do not mention the map's own keys (chained maps make sequential subs order dependent)",
+    "symbol maps whose values do not mention the map's own keys (chained maps make sequential subs order dependent) – for the "
+    "model comparison and the sentence-by-sentence oracle; chained maps themselves are the `chained` kind, where only the "
+    "existence of ONE consistent reading is demanded (known finding chained-map-bare-vs-compound)",
     "values given to symbols declared real / finite are real and finite (all points and numeric values are real rationals)",
     "is_hermitian flags of factory gates are truthful (HermOK); custom definitions mention only ordered symbols and are "
     "called with at least as many params as they order (CustomOK)",
@@ -89,7 +99,7 @@ def _lib():
 # Symbols are identified by an ID string, not by their printed name.  An id is the name of a plain symbol ("theta", "_x"), or a
 # LOOK-ALIKE of it: "theta__real" / "theta__finite" = Symbol("theta", real=True / finite=True), "t__d1", "t__d2" = two distinct
 # Dummy("t") (printed "_t").  sympy (and the library) treat all of these as different symbols although they print alike.
-_LOOK = re.compile(r"^([A-Za-z_][A-Za-z_0-9]*?)__(real|finite|d[0-9])$")
+_LOOK = re.compile(r"^([A-Za-z_][A-Za-z_0-9]*?)__(real|finite|d[0-9]|n0)$")
 _SYMTAB = {}   # id -> symbol object (one object per id for the whole run: Dummies must stay the same object)
 _SYMID = {}    # symbol object -> id
 _DEFS = {}     # per-case: custom gate definitions shared by all gates of the case (one long-lived object per definition)
@@ -102,6 +112,8 @@ def _sym(sid):
         m = _LOOK.match(sid)
         if m and m.group(2)[0] == "d":
             obj = sympy.Dummy(m.group(1))
+        elif m and m.group(2) == "n0":
+            obj = sympy.Symbol(m.group(1))      # "E__n0" = the plain Symbol("E"): a name sympify would read as a constant
         elif m:
             obj = sympy.Symbol(m.group(1), **{m.group(2): True})
         else:
@@ -128,7 +140,7 @@ def _sid(sym):
 
 def _pname(sid):
     """the printed name of the symbol with that id (what sorted(..., key=str) in the library sees)"""
-    m = re.match(r"^(.*?)__(real|finite|d[0-9]|dx[0-9]+|a_.*)$", sid)
+    m = re.match(r"^(.*?)__(real|finite|d[0-9]|dx[0-9]+|a_.*|n0)$", sid)
     if not m:
         return sid
     return ("_" if m.group(2)[0] == "d" else "") + m.group(1)
@@ -224,7 +236,13 @@ def _circuit(c):
     ops = []
     for o in c["ops"]:
         # "same_as": the very same operation object once more (shared, not merely equal)
-        ops.append(ops[o["same_as"]] if "same_as" in o else _op(o))
+        if "same_as" in o:
+            ops.append(ops[o["same_as"]])
+        elif "gate_of" in o:
+            # the very same GATE object as in an earlier operation, applied to other qubits
+            ops.append(ops[o["gate_of"]].gate(*o["q"]))
+        else:
+            ops.append(_op(o))
     return C.Circuit(ops, n_qubits=c.get("n"))
 
 
@@ -263,6 +281,8 @@ def param_json(p):
     sympy, _, _ = _lib()
     if isinstance(p, sympy.Expr):
         return ast(p)
+    if isinstance(p, Fraction):
+        return {"py": _fr(p)}
     if isinstance(p, bool) or not isinstance(p, (int, float)):
         raise Unsupported(repr(p))
     return {"py": _fr(Fraction(p))}
@@ -669,6 +689,20 @@ def _unitary_checks(circ, bound, m, pt):
     return out
 
 
+def _bare_exact(ops, bops, m):
+    """a parameter that IS a key of the map (the exact symbol object) is replaced by exactly the value bound to it –
+    no tolerance is involved in looking a symbol up (1e-12 is not 0, 0.5 is not 0.5 + 1e-9, 0 is a value)"""
+    sympy = _lib()[0]
+    bad = []
+    for a, (o, b) in enumerate(zip(ops, bops)):
+        for p, q in zip(o.params, b.params):
+            if isinstance(p, sympy.Symbol) and p in m:
+                v = m[p]
+                if not bool(q == v):      # equality of values (1 == 1.0 == Integer(1)), no tolerance
+                    bad.append(f"operation {a}: parameter {p} bound to {v!r} became {q!r}")
+    return bad
+
+
 def _observe_bound(c, circ, ops, m, bound, pts, out, unitary):
     """everything the oracle needs about `bound` = circ.bind(m) (m: the values that were bound)"""
     sympy, C, G = _lib()
@@ -685,6 +719,7 @@ def _observe_bound(c, circ, ops, m, bound, pts, out, unitary):
             row.append(None if (a1 is None or a2 is None) else abs(a1 - a2) / max(1.0, abs(a1)))
         pd.append(row if len(o.params) == len(b.params) else "len")
     ob["param_diff"] = pd
+    ob["bare_exact"] = _bare_exact(ops, bops, m)
     md, cd = [], []
     for k, (o, b, okc) in enumerate(zip(ops, bops, out["custom_ok"])):
         d = dc = None
@@ -811,9 +846,21 @@ def _run_circuit(c, pts):
     sympy, C, G = _lib()
     circ, ops, out = _circuit_head(c, pts)
     m = _map(c["map"])
+    pristine = dict(m)
     out["bound"], bound = _bind_and_observe(c, circ, ops, m, pts, out, unitary=c.get("unitary"))
+    # per-operation refusals: GateOperation.bind / Gate.bind of every power / exponential operation of the circuit
+    if "powexp" in out["kinds"]:
+        out["powexp_ops"] = [[k, _try(lambda o=o: o.bind(dict(pristine)))[1], _try(lambda o=o: o.gate.bind(dict(pristine)))[1]]
+                             for k, o in enumerate(ops) if out["kinds"][k] == "powexp"]
     if bound is not None:
         bops = list(bound.operations)
+        # the SAME map object, as the caller holds it after the call, bound to a witness circuit with one bare gate
+        # per entry: every entry the caller put in is still honoured
+        if pristine:
+            wit = C.Circuit([C.RX(k)(0) for k in pristine])
+            wb, werr = _try(lambda: wit.bind(m))
+            out["witness"] = [f"raised {werr}"] if werr else _bare_exact(list(wit.operations), list(wb.operations), pristine)
+            out["map_intact"] = len(m) == len(pristine) and all(k in m and (m[k] is v or bool(m[k] == v)) for k, v in pristine.items())
         # S4: superfluous entries change nothing
         if c.get("extra"):
             m2 = dict(m)
@@ -830,8 +877,36 @@ def _run_circuit(c, pts):
             on, e2 = _try(lambda: circ.bind(merged))
             out["step"] = {"err": e1} if e1 else _observe_circuit(st, pts)
             out["once"] = {"err": e2} if e2 else _observe_circuit(on, pts)
+    if c["kind"] == "chained" and bound is not None:
+        out["readings"] = _readings(ops, list(bound.operations), pristine, pts)
     # the circuit that was bound still answers as before
     out["after"] = _light(circ)
+    return out
+
+
+def _readings(ops, bops, m, pts):
+    """for a map whose values mention its own keys: does the bound circuit equal the circuit with the values substituted
+    SIMULTANEOUSLY, or SEQUENTIALLY in some order of the entries?  {reading: True/False} (values at the points)"""
+    import itertools
+    out = {}
+    items = list(m.items())
+    readings = [("simultaneous", None)] + [("sequential " + " then ".join(f"{k}->{v}" for k, v in perm), perm)
+                                           for perm in itertools.permutations(items)]
+    for name, perm in readings:
+        ok = True
+        for o, b in zip(ops, bops):
+            for p, q in zip(o.params, b.params):
+                if perm is None:
+                    want = _subst(p, m)
+                else:
+                    want = p
+                    for k, v in perm:
+                        want = _subst(want, {k: v})
+                for pt in pts:
+                    a1, a2 = impl_value(want, pt)[1], impl_value(q, pt)[1]
+                    if a1 is not None and a2 is not None and not close(a1, a2):
+                        ok = False
+        out[name] = ok
     return out
 
 
@@ -857,6 +932,10 @@ def _run_hist(c, pts):
             out["poisoned"].append(_poison(circ, bound, m_live))
             # asked again after the edits: the bound circuit must still be the circuit bound with the ORIGINAL values
             ob["again"] = _observe_bound(c, circ, ops, m, bound, pts, out, unitary=False)
+            live = bound.operations
+            if isinstance(live, list) and live:
+                live.append(live[0])
+                live.reverse()
             ob["orig_again"] = _light(circ)
         out["binds"].append(ob)
     if c.get("chain"):
@@ -907,6 +986,7 @@ def _gate_bind_obs(c, g, m, pts, out):
             a1, a2 = impl_value(_subs_after(p, m), pt)[1], impl_value(q, pt)[1]
             pd.append(None if (a1 is None or a2 is None) else abs(a1 - a2) / max(1.0, abs(a1)))
         ob["param_diff"] = pd if len(g.params) == len(b.params) else "len"
+        ob["bare_exact"] = _bare_exact([g], [b], m)
         if c.get("matrix", True):
             try:
                 ob["matrix_diff"] = _mdiff(_mat_num(_subst(g.matrix, m), pt), _mat_num(b.matrix, pt))
@@ -936,6 +1016,13 @@ def _run_gate(c, pts):
             out["custom_diff"] = None
     m_live = dict(m)   # one long-lived dict object for every bind of the case
     out["bound"], b = _gate_bind_obs(c, g, m_live, pts, out)
+    # the same question asked of an operation of the gate (GateOperation.bind)
+    ob_, oerr = _try(lambda: g(*range(g.num_qubits)).bind(dict(m)))
+    out["op_bound"] = {"err": oerr} if oerr else {"strs": [str(p) for p in ob_.params], "qubits_same": tuple(ob_.qubit_indices) == tuple(range(g.num_qubits)),
+                                                   "bare_exact": _bare_exact([g], [ob_], m),
+                                                   "same_as_gate": b is not None and len(ob_.params) == len(b.params) and all(
+                                                       (type(p) is type(q) and p == q) or close(impl_value(p, pts[0] if pts else {})[1], impl_value(q, pts[0] if pts else {})[1])
+                                                       for p, q in zip(ob_.params, b.params))}
     # HISTORY on the same gate object: sibling maps, then the first map once more (after editing what was handed out)
     if c.get("more_maps"):
         out["more"] = []
@@ -1001,7 +1088,7 @@ def _plan(c, out):
     """[(tag, driver op, payload)] – the model is asked about every bind of the case, each as a fresh computation
     (the model is a pure function: a history on one object is a list of independent questions to it)"""
     pts = c.get("pts", [])
-    full = c.get("model", True)
+    full = c.get("model", True) and c["kind"] != "chained"    # the model substitutes simultaneously: chained maps are the oracle's
     plan = []
     if c["kind"] == "gate":
         if not full or out.get("construct") or out.get("g_json") is None:
@@ -1312,6 +1399,10 @@ def _check_bound(what, c, out, b, ms):
         # the first exception wins; nothing before a power/exponential gate may raise, so it is the refusal
         if b.get("err") != "err:notimpl":
             return ("powexp-bind-not-refused", f"{what}: a power/exponential gate was bound: outcome {b.get('err', 'a circuit')} instead of NotImplementedError")
+        for k, e_op, e_gate in out.get("powexp_ops") or []:
+            if e_op != "err:notimpl" or e_gate != "err:notimpl":
+                return ("powexp-bind-not-refused", f"{what}: operation {k} wraps a power/exponential gate: GateOperation.bind -> "
+                                                   f"{e_op or 'an operation'}, Gate.bind -> {e_gate or 'a gate'} instead of NotImplementedError")
         return None
     if "err" in b:
         if "reset" in kinds:
@@ -1325,6 +1416,8 @@ def _check_bound(what, c, out, b, ms):
     for a, row in enumerate(b["param_diff"]):
         if row == "len" or any(d is not None and d > TOL for d in row):
             return ("bind-param-value", f"{what}: operation {a}: bound parameters {b['strs'][a]} differ from substituting {ms} afterwards (rel. diff {row})")
+    if b.get("bare_exact"):
+        return ("bind-param-value", f"{what}: {b['bare_exact'][0]} (map {ms})")
     for a, d in enumerate(b["matrix_diff"]):
         if d is not None and not d <= 1e-8:
             return ("bind-matrix", f"{what}: operation {a}: matrix of the bound gate differs from the substituted symbolic matrix by {d}")
@@ -1349,6 +1442,19 @@ def _check_bound(what, c, out, b, ms):
 def oracle(c, out):
     if "exc" in out:
         return ("unexpected-exception", f"the implementation raised {out['exc']}: {out.get('msg')}")
+    if c["kind"] == "chained":
+        res = _check_free("before bind", out["before"])
+        if res:
+            return res
+        if "err" in out["bound"]:
+            return ("bind-raises", f"bind raised {out['bound']['err']} on a circuit of bindable operations")
+        if not any(out["readings"].values()):
+            return ("chained-map-bare-vs-compound",
+                    f"map {c['map']} (values mention keys of the map): the bound parameters {out['bound']['strs']} of "
+                    f"{out['before']['strs']} equal neither the simultaneous substitution nor a sequential substitution in any "
+                    f"order of the entries – bare-symbol parameters are looked up once, compound parameters go through sympy's "
+                    f"sequential subs")
+        return _check_free("after bind", out["bound"])
     if not _in_domain(c):
         return None
     if c["kind"] == "gate":
@@ -1364,6 +1470,11 @@ def oracle(c, out):
         return res
     if "extra_same" in out and (out["extra_same"] is False or not all(all(r) for r in out["extra_same"])):
         return ("bind-extra", "superfluous map entries changed the bound circuit")
+    if out.get("witness") and not out.get("map_intact"):
+        return ("bind-edits-map", f"circuit.bind(map) changed the caller's map object (map {c['map']}); bound once more, to a witness circuit "
+                                  f"[RX(k) for k in map]: {out['witness'][0]} – bind must ignore superfluous entries, not remove / change them")
+    if out.get("witness"):
+        return ("bind-param-value", f"the same map object (map {c['map']}) bound to a second circuit [RX(k) for k in map] right after: {out['witness'][0]}")
     if "step" in out:
         res = _check_steps(out["step"], out["once"])
         if res:
@@ -1427,6 +1538,8 @@ def _oracle_gate_bound(what, out, b, ms):
         for key, api in (("free", "bound gate"), ("free_op", "operation of the bound gate")):
             if not _free_exact(b[key], b["occ"]):
                 return ("free-symbols-op", f"{what}: {api} reports {b[key]}, its parameters {b['strs']} depend on {b['occ']}")
+    if b.get("bare_exact"):
+        return ("bind-param-value", f"{what}: {b['bare_exact'][0].replace('operation 0: ', '')} (map {ms})")
     pd = b.get("param_diff")
     if pd == "len" or (pd and any(d is not None and d > TOL for d in pd)):
         return ("bind-param-value", f"{what}: bound parameters {b['strs']} differ from substituting {ms} afterwards (rel. diff {pd})")
@@ -1452,6 +1565,15 @@ def _oracle_gate(c, out):
     res = _oracle_gate_bound("bind", out, out["bound"], c["map"])
     if res:
         return res
+    ob = out.get("op_bound")
+    if ob is not None:
+        if out["powexp"]:
+            if ob.get("err") != "err:notimpl":
+                return ("powexp-bind-not-refused", f"GateOperation.bind of a power/exponential gate: outcome {ob.get('err', 'an operation')} instead of NotImplementedError")
+        elif "err" in ob:
+            return ("bind-raises", f"GateOperation.bind raised {ob['err']}")
+        elif ob["bare_exact"] or not ob["same_as_gate"] or not ob["qubits_same"]:
+            return ("bind-paths-differ", f"GateOperation.bind gives parameters {ob['strs']} (qubits kept: {ob['qubits_same']}), Gate.bind {out['bound'].get('strs')}")
     if "more" in out:
         seq = list(c["more_maps"]) + [c["map"]]
         for i, (ms, b) in enumerate(zip(seq, out["more"])):
@@ -2245,6 +2367,238 @@ def _gen_lookalike_case(rng, i, big=False):
     return c
 
 
+# ---------------------------------------------------------------- hardening families (value twins, refusals, chained maps, shapes)
+BIGTWIN = str(2 ** 61 - 1)      # hash(2**61 - 1) == hash(0), hash(-1) == hash(-2)
+TWIN_MODES = ["neg", "zero-big", "close", "swap-values", "reorder", "retype", "twin-key", "all-equal"]
+
+
+def gen_twin_hist_case(rng, i, big=False):
+    """a history on ONE circuit object (and one map object) whose consecutive maps are TWINS of each other for a sloppy
+    cache key: values with equal hashes (-1 / -2, 0 / 2**61-1), values within 1e-9, the values of two keys swapped, the
+    same entries in another order, equal numbers of other types, the look-alike key, all values equal -> one differs.
+    Every key occurs bare, inside a compound expression, in a wrapped gate and in a MultiPhaseOperation; one gate object is
+    used by two operations on different qubits."""
+    mode = TWIN_MODES[i % len(TWIN_MODES)]
+    x, y, z = rng.sample(SYMS, 3)
+    g1 = lambda name, e: {"k": "mf", "name": name, "params": [{"e": e}]}
+    one = lambda: rng.choice(MIX1)
+    shared = g1(one(), x)
+    ops = [{"op": "gate", "g": shared, "q": [0]},
+           {"op": "gate", "g": g1(one(), f"2*{x} + {y}"), "q": [1]},
+           {"op": "gate", "g": {"k": "ctrl", "n": 1, "g": g1(one(), y), "raw": rng.random() < 0.3}, "q": [2, 0]},
+           {"op": "gate", "g": shared, "q": [2], "gate_of": 0},
+           {"op": "mp", "params": [{"e": z}, {"e": x}, {"py": "1/2"}, {"e": f"{y}*{z}"}]},
+           {"op": "gate", "g": {"k": "dag", "g": {"k": "mf", "name": "MS", "params": [{"e": z}, {"e": z}]}}, "q": [1, 2]}]
+    py = lambda v: {"py": v}
+    c = {"kind": "hist", "n": rng.choice([None, 3, 4]), "poison": i % 2 == 1, "twin": mode}
+    if mode == "neg":
+        maps = [[[x, py("-1")], [y, py("3/4")]], [[x, py("-2")], [y, py("3/4")]], [[x, py("-2")], [y, py("-1")]], [[x, py("-1")], [y, py("-2")]]]
+    elif mode == "zero-big":
+        maps = [[[x, py("0")]], [[x, py(BIGTWIN)]], [[x, py("0")], [z, py(BIGTWIN)]], [[x, py(BIGTWIN)], [z, py("0")]]]
+        c["matrix"] = False          # cos(2**61/2) through float arithmetic is rounding noise
+    elif mode == "close":
+        v = rng.choice(["0.5", "0.75", "1.25", "-0.375"])
+        w = repr(float(v) + rng.choice([1e-9, -1e-9, 3e-10, 1e-12]))
+        maps = [[[x, {"num": ["float", v]}]], [[x, {"num": ["float", w]}]], [[x, {"num": ["float", v]}], [y, {"num": ["float", "1e-12"]}]],
+                [[x, {"num": ["float", w]}], [y, {"num": ["float", "0.0"]}]]]
+    elif mode == "swap-values":
+        a, b = rng.sample(NUMVALS, 2)
+        maps = [[[x, py(a)], [y, py(b)]], [[x, py(b)], [y, py(a)]], [[x, py(a)], [y, py(b)], [z, py(a)]], [[x, py(a)], [y, py(a)], [z, py(b)]]]
+    elif mode == "reorder":
+        a, b, d = rng.sample(NUMVALS, 3)
+        maps = [[[x, py(a)], [y, py(b)], [z, py(d)]], [[z, py(d)], [x, py(a)], [y, py(b)]], [[y, py(b)], [z, py(a)], [x, py(d)]]]
+    elif mode == "retype":
+        maps = [[[x, py("1")], [y, py("0")]], [[x, {"num": ["float", "1.0"]}], [y, {"num": ["float", "0.0"]}]], [[x, {"e": "1"}], [y, {"e": "0"}]],
+                [[x, {"num": ["fraction", "1"]}], [y, {"num": ["float", "-0.0"]}]], [[x, py("2")], [y, py("1")]]]
+    elif mode == "twin-key":
+        t = f"{x}__{rng.choice(['real', 'finite'])}"
+        a, b = rng.sample(NUMVALS, 2)
+        maps = [[[x, py(a)]], [[t, py(a)]], [[t, py(a)], [x, py(b)]], [[x, py(a)], [t, py(b)]]]
+        ops.append({"op": "gate", "g": g1(one(), t), "q": [0]})
+    else:
+        a, b = rng.sample(NUMVALS, 2)
+        maps = [[[x, py(a)], [y, py(a)], [z, py(a)]], [[x, py(a)], [y, py(b)], [z, py(a)]], [[x, py(b)], [y, py(b)], [z, py(b)]]]
+    maps.append([[k, dict(v)] for k, v in maps[0]])
+    c.update({"ops": ops, "maps": maps, "pts": gen_points(rng, SYMS + [f"{x}__real", f"{x}__finite"])})
+    if i % 3 == 0:
+        c["chain"] = [[[x, py("1/2")]], [[y, py("-1")], [z, py("-2")]]]
+    return c
+
+
+def gen_twin_gate_case(rng, i):
+    """the same twins on ONE gate object (Gate.bind / GateOperation.bind), wrapped or custom"""
+    x, y = rng.sample(SYMS, 2)
+    base = rng.choice([{"k": "mf", "name": rng.choice(MIX1), "params": [{"e": x}]},
+                       {"k": "mf", "name": "MS", "params": [{"e": x}, {"e": f"{x} + {y}"}]},
+                       {"k": "custom", "name": "U4", "params": [{"e": x}, {"e": y}, {"e": f"{x}*{y}"}]}])
+    g = base
+    for w in rng.sample(["ctrl", "dag", "ctrl"], rng.choice([0, 1, 2])):
+        g = {"k": "ctrl", "g": g, "n": 1, "raw": rng.random() < 0.3} if w == "ctrl" else {"k": "dag", "g": g, "raw": rng.random() < 0.3}
+    py = lambda v: {"py": v}
+    mode = ["neg", "zero-big", "close", "swap-values"][i % 4]
+    if mode == "neg":
+        maps = [[[x, py("-1")]], [[x, py("-2")]], [[x, py("-2")], [y, py("-1")]]]
+    elif mode == "zero-big":
+        maps = [[[x, py("0")]], [[x, py(BIGTWIN)]], [[x, py("0")], [y, py("0")]]]
+    elif mode == "close":
+        maps = [[[x, {"num": ["float", "0.25"]}]], [[x, {"num": ["float", repr(0.25 + 1e-9)]}]], [[x, {"num": ["float", "1e-12"]}]], [[x, {"num": ["float", "0.0"]}]]]
+    else:
+        maps = [[[x, py("2")], [y, py("3")]], [[x, py("3")], [y, py("2")]], [[y, py("3")], [x, py("2")]]]
+    c = {"kind": "gate", "g": g, "map": maps[0], "more_maps": maps[1:], "pts": gen_points(rng, SYMS), "twin": mode}
+    if mode == "zero-big":
+        c["matrix"] = False
+    return c
+
+
+NESTINGS = [["pow"], ["exp"], ["pow", "ctrl"], ["exp", "ctrl"], ["ctrl", "pow"], ["ctrl", "exp"], ["pow", "dag"], ["exp", "dag"],
+            ["pow", "ctrl!"], ["pow", "dag!"], ["exp", "dag!"], ["dag", "pow", "ctrl"], ["pow", "ctrl!", "dag!"], ["exp", "ctrl", "ctrl!"],
+            ["ctrl", "pow", "dag!"], ["pow", "pow"], ["exp", "pow", "ctrl"], ["dag!", "exp", "ctrl"]]
+
+
+def gen_refusal_case(rng, i):
+    """the refusal sentence for EVERY nesting: a power / exponential wrapper under or above controls and daggers (built
+    through the API or directly, "!"), asked at gate, operation and circuit level, with an empty map, a map of
+    superfluous symbols and a map of symbols the rest of the circuit uses"""
+    nest = NESTINGS[i % len(NESTINGS)]
+    g = rng.choice([{"k": "mf", "name": rng.choice(MIXF1), "params": []},
+                    {"k": "mf", "name": rng.choice(MIX1), "params": [{"py": rng.choice(["1/2", "3/4", "1"])}]}])
+    for w in nest:
+        raw = w.endswith("!")
+        w = w.rstrip("!")
+        if w == "pow":
+            g = {"k": "pow", "g": g, "e": rng.choice(["2", "1/2", "-1", "3"])}
+        elif w == "exp":
+            g = {"k": "exp", "g": g}
+        elif w == "ctrl":
+            g = {"k": "ctrl", "g": g, "n": 1, "raw": raw}
+        else:
+            g = {"k": "dag", "g": g, "raw": raw}
+    x, y = rng.sample(SYMS, 2)
+    m = [[], [[y, {"py": "1"}]], [[x, {"py": "1/2"}]], [[x, {"e": y}], [y, {"py": "2"}]][:1]][i % 4]
+    if (i // len(NESTINGS)) % 2 == 0 and i % 3 != 2:
+        c = {"kind": "gate", "g": g, "map": m}
+        if i % 2:
+            c["more_maps"] = [[[x, {"py": "2"}]]]
+    else:
+        ops = [{"op": "gate", "g": {"k": "mf", "name": "RX", "params": [{"e": x}]}, "q": [0]},
+               {"op": "gate", "g": g, "q": list(range(_nq(g)))},
+               {"op": "gate", "g": {"k": "mf", "name": "RY", "params": [{"e": f"{x} + 1"}]}, "q": [0]}]
+        if i % 5 == 0:
+            ops = ops[1:2]
+        c = {"kind": "circuit", "ops": ops, "n": None, "map": m, "unitary": False}
+    c["pts"] = gen_points(rng, SYMS)
+    c["refusal"] = "/".join(nest)
+    return c
+
+
+def gen_chained_case(rng, i):
+    """maps whose values mention keys of the same map (swaps, chains): "substituting the same values" can then be read as
+    simultaneous or as sequential in some order of the entries – but ONE reading has to hold for every parameter of the
+    circuit, bare symbols and compound expressions alike (oracle only)"""
+    x, y, z = rng.sample(SYMS, 3)
+    style = ["swap", "chain", "cycle", "swap"][i % 4]
+    if style == "swap":
+        m = [[x, {"e": y}], [y, {"e": x}]]
+    elif style == "chain":
+        m = [[x, {"e": y}], [y, {"py": rng.choice(["3", "1/2", "-1"])}]]
+    else:
+        m = [[x, {"e": z}], [z, {"e": x}], [y, {"py": "1"}]]
+    rng.shuffle(m)
+    exprs = [x, y, f"{x} + 2*{y}", f"2*{x}", f"{x}*{y} + {z}", z, f"{y} - {x}"]
+    picked = rng.sample(exprs, rng.choice([3, 4]))
+    if i % 4 == 3:
+        picked = [e for e in picked if e not in (x, y, z)] or [f"2*{x}"]       # compound parameters only
+    ops = [{"op": "gate", "g": {"k": "mf", "name": rng.choice(MIX1), "params": [{"e": e}]}, "q": [rng.randrange(2)]} for e in picked]
+    if rng.random() < 0.4:
+        ops.append({"op": "mp", "params": [{"e": x}, {"e": f"{x} + {y}"}]})
+    return {"kind": "chained", "ops": ops, "n": 2, "map": m, "pts": gen_points(rng, SYMS), "style": style}
+
+
+FUNCNAMES = ["E__n0", "I__n0", "S__n0", "pi__n0", "lambda__n0", "beta__n0", "N__n0", "Q__n0", "gamma"]
+
+
+def gen_shape_case(rng, flavour, big=False):
+    """special SHAPES: repeated equal parameters (MS(t,t), uniform phases, U4(x,x,x), parameters that merely print alike),
+    symbols whose names are sympy constants / functions (E, I, S, pi, lambda …), >= 64 operations with >= 13 symbols some
+    of which first occur after the 64th operation and qubit indices >= 64, falsy values (0, 0.0, -0.0, sympy 0) bound to
+    bare symbols"""
+    g1 = lambda name, e: {"k": "mf", "name": name, "params": [{"e": e}]}
+    one = lambda: rng.choice(MIX1)
+    c = {"kind": "exotic", "flavour": flavour}
+    if flavour == "repeat":
+        t, u = rng.sample(SYMS, 2)
+        tw = f"{t}__{rng.choice(['real', 'finite'])}"
+        e = rng.choice([t, f"2*{t} + {u}", t])
+        ops = [{"op": "gate", "g": {"k": "mf", "name": "MS", "params": [{"e": e}, {"e": e}]}, "q": [0, 1]},
+               {"op": "mp", "params": [{"e": t}] * 4},
+               {"op": "gate", "g": {"k": "custom", "name": "U4", "params": [{"e": t}, {"e": t}, {"e": t}]}, "q": [1]},
+               {"op": "gate", "g": {"k": "dag", "g": {"k": "mf", "name": "MS", "params": [{"e": t}, {"e": tw}]}}, "q": [1, 0]},
+               {"op": "mp", "params": [{"e": tw}, {"e": t}]},
+               {"op": "gate", "g": {"k": "ctrl", "n": 1, "g": {"k": "mf", "name": "MS", "params": [{"py": "1/2"}, {"py": "1/2"}]}}, "q": [2, 0, 1]},
+               {"op": "mp", "params": [{"py": "1"}, {"num": ["float", "1.0"]}]}]
+        ops = [o for o in ops if rng.random() < 0.75] or ops[:2]
+        keys = rng.choice([[t], [tw], [t, tw], [t, u], [u]])
+        vals = rng.sample(NUMVALS, 3)
+        c.update({"ops": [{**o, "params": [dict(p) for p in o["params"]]} if "params" in o else o for o in ops], "n": 3,
+                  "map": [[k, {"py": vals[j]}] for j, k in enumerate(keys)], "unitary": False})
+        c["pts"] = gen_points(rng, SYMS + [tw])
+        return c
+    if flavour == "funcname":
+        names = rng.sample(FUNCNAMES, 3)
+        a, b, d = names
+        ops = [{"op": "gate", "g": g1(one(), a), "q": [0]}, {"op": "gate", "g": g1(one(), f"2*{a} + {b}"), "q": [1]},
+               {"op": "gate", "g": {"k": "ctrl", "n": 1, "g": g1(one(), f"{b}*{d}")}, "q": [1, 0]},
+               {"op": "mp", "params": [{"e": d}, {"e": f"{a} - {d}"}]},
+               {"op": "gate", "g": {"k": "custom", "name": "U1", "params": [{"e": f"{b} + 1"}]}, "q": [0]}]
+        keys = [k for k in names if rng.random() < 0.6] or [a]
+        c.update({"ops": ops, "n": None, "map": [[k, _numeric_value(rng)] for k in keys], "unitary": rng.random() < 0.4})
+        rest = [k for k in names if k not in keys]
+        if rest:
+            c["map2"] = [[k, _numeric_value(rng)] for k in rest]
+        c["pts"] = gen_points(rng, SYMS + FUNCNAMES)
+        return c
+    if flavour == "falsy":
+        x, y, z = rng.sample(SYMS, 3)
+        ops = [{"op": "gate", "g": g1(one(), x), "q": [0]}, {"op": "gate", "g": g1(one(), f"{x} + {y}"), "q": [0]},
+               {"op": "gate", "g": {"k": "dag", "g": g1(one(), y)}, "q": [1]}, {"op": "mp", "params": [{"e": z}, {"e": x}]},
+               {"op": "gate", "g": {"k": "custom", "name": "U2", "params": [{"e": z}, {"e": y}]}, "q": [1]}]
+        zero = lambda: rng.choice([{"py": "0"}, {"num": ["float", "0.0"]}, {"num": ["float", "-0.0"]}, {"e": "0"}, {"num": ["fraction", "0"]},
+                                   {"num": ["complex", "0"]}, {"e": "0.0"}])
+        keys = rng.sample([x, y, z], rng.choice([1, 2, 3]))
+        c.update({"ops": ops, "n": 2, "map": [[k, zero()] for k in keys], "unitary": rng.random() < 0.4})
+        rest = [k for k in (x, y, z) if k not in keys]
+        if rest and rng.random() < 0.6:
+            c["map2"] = [[k, zero()] for k in rest]
+        c["pts"] = gen_points(rng, SYMS)
+        return c
+    # long: 64-80 operations, 13-14 symbols, the last symbols first occur after operation 64, wide register
+    syms = rng.sample(SYMS, rng.choice([13, 14]))
+    late = syms[-3:]
+    nops = rng.choice([66, 72, 80])
+    width = rng.choice([9, 16, 66, 70])
+    ops = []
+    for k in range(nops):
+        pool = late if k >= 64 or (k == nops - 1) else syms[:-3]
+        s1 = pool[k % len(pool)]
+        r = rng.random()
+        p = {"e": s1} if r < 0.5 else {"e": f"{_num_str(rng)}*{s1} + {rng.choice(pool)}"} if r < 0.9 else {"py": rng.choice(NUMVALS)}
+        if rng.random() < 0.04:
+            ops.append({"op": "mp", "params": [p, {"e": rng.choice(pool)}]})
+            continue
+        ops.append({"op": "gate", "g": g1(one(), p["e"]) if "e" in p else {"k": "mf", "name": one(), "params": [p]}, "q": [rng.randrange(width)]})
+    c.update({"ops": ops, "n": rng.choice([None, width + 1]), "unitary": False, "matrix": False})
+    used = _case_syms(c)
+    style = rng.choice(["total", "late", "partial"])
+    keys = list(used) if style == "total" else [s for s in used if s in late] if style == "late" else [s for s in used if rng.random() < 0.5]
+    rng.shuffle(keys)
+    c["map"] = [[k, _numeric_value(rng)] for k in keys]
+    rest = [s for s in used if s not in keys]
+    if rest and rng.random() < 0.5:
+        c["map2"] = [[k, _numeric_value(rng)] for k in rest if rng.random() < 0.7]
+    c["pts"] = gen_points(rng, SYMS, n=1)
+    return c
+
+
 def corpus():
     pts = [[[s, _fr(Fraction(i + 2, 3))] for i, s in enumerate(SYMS)], [[s, _fr(Fraction(-(i + 1), 2))] for i, s in enumerate(SYMS)]]
     rx = {"k": "mf", "name": "RX", "params": [{"e": "2*x*y + 1"}]}
@@ -2355,6 +2709,28 @@ def corpus():
         # Dummy("x") prints "_x" like Symbol("_x"); wrapped gate; history on the gate object
         {"kind": "gate", "g": {"k": "dag", "raw": True, "g": {"k": "ctrl", "n": 1, "g": {"k": "mf", "name": "RZ", "params": [{"e": "_x"}]}}},
          "map": [["x__d1", {"py": "2"}]], "more_maps": [[["x__d1", {"py": "2"}], ["_x", {"e": "1/3"}]]], "pts": lpts, "look": {"family": 7}},
+        # --- hardening: value twins on one circuit object (hash(-1) == hash(-2), hash(0) == hash(2**61-1), values 1e-9 apart)
+        {"kind": "hist", "n": 2, "pts": pts, "poison": True, "twin": "neg",
+         "ops": [{"op": "gate", "g": {"k": "mf", "name": "RX", "params": [{"e": "x"}]}, "q": [0]},
+                 {"op": "gate", "g": {"k": "mf", "name": "RY", "params": [{"e": "2*x + y"}]}, "q": [1]},
+                 {"op": "gate", "g": {"k": "mf", "name": "RX", "params": [{"e": "x"}]}, "q": [1], "gate_of": 0},
+                 {"op": "mp", "params": [{"e": "y"}, {"e": "x"}]}],
+         "maps": [[["x", {"py": "-1"}]], [["x", {"py": "-2"}]], [["x", {"py": "-2"}], ["y", {"py": "-1"}]], [["x", {"py": "-1"}], ["y", {"py": "-2"}]],
+                  [["x", {"py": "-1"}]]]},
+        {"kind": "gate", "g": {"k": "ctrl", "n": 1, "g": {"k": "mf", "name": "RZ", "params": [{"e": "x"}]}}, "pts": pts, "twin": "close", "matrix": False,
+         "map": [["x", {"py": "0"}]], "more_maps": [[["x", {"py": BIGTWIN}]], [["x", {"num": ["float", "1e-12"]}]], [["x", {"num": ["float", "0.5"]}]],
+                                                    [["x", {"num": ["float", "0.500000001"]}]]]},
+        # refusal under a directly constructed dagger / control, at operation and circuit level, empty map
+        {"kind": "circuit", "n": None, "pts": pts, "unitary": False, "map": [], "refusal": "pow/dag!",
+         "ops": [{"op": "gate", "g": {"k": "dag", "raw": True, "g": {"k": "pow", "e": "1/2", "g": {"k": "mf", "name": "X", "params": []}}}, "q": [0]}]},
+        {"kind": "gate", "g": {"k": "dag", "raw": True, "g": {"k": "ctrl", "n": 1, "raw": True, "g": {"k": "exp", "g": {"k": "mf", "name": "RX", "params": [{"py": "1/2"}]}}}},
+         "map": [["x", {"py": "1"}]], "pts": pts, "refusal": "exp/ctrl!/dag!"},
+        # a map whose values mention its own keys (swap): one reading must hold for bare and compound parameters alike
+        # (KNOWN finding chained-map-bare-vs-compound: the unchanged library looks bare symbols up once and sends compound
+        #  parameters through sympy's sequential subs)
+        {"kind": "chained", "n": 1, "pts": pts, "style": "swap", "map": [["x", {"e": "y"}], ["y", {"e": "x"}]],
+         "ops": [{"op": "gate", "g": {"k": "mf", "name": "RX", "params": [{"e": "x"}]}, "q": [0]},
+                 {"op": "gate", "g": {"k": "mf", "name": "RY", "params": [{"e": "x + 2*y"}]}, "q": [0]}]},
         # custom gate whose formal parameters print alike, called with look-alikes of them
         {"kind": "circuit", "n": 2, "pts": lpts, "look": {"family": 4}, "unitary": True,
          "ops": [{"op": "gate", "g": {"k": "custom", "name": "U5", "params": [{"e": "theta__real"}, {"e": "theta + y"}]}, "q": [0]},
@@ -2404,6 +2780,20 @@ def generate(rng, tier):
     cases = [add_lookalikes(lrng, c) if (c.get("flavour") not in ("binder", "pynum") and lrng.random() < 0.3) else c for c in cases]
     for i in range(64 if big else 16):
         cases.append(gen_lookalike_case(lrng, i, big))
+    # hardening families: value twins on one circuit / gate object, refusals for every nesting, chained maps
+    hrng = random.Random(f"hard:{lrng.random()}")
+    off = hrng.randrange(1000)
+    for i in range(32 if big else 8):
+        cases.append(gen_twin_hist_case(hrng, i, big))
+    for i in range(16 if big else 4):
+        cases.append(gen_twin_gate_case(hrng, off + i))
+    for i in range(72 if big else 18):
+        cases.append(gen_refusal_case(hrng, i))
+    shapes = ["repeat", "funcname", "falsy", "long", "repeat", "funcname", "falsy", "long"]
+    for i in range(32 if big else 8):
+        cases.append(gen_shape_case(hrng, shapes[i % len(shapes)], big))
+    for i in range(16 if big else 4):
+        cases.append(gen_chained_case(hrng, i))
     return cases
 
 
